@@ -261,7 +261,7 @@ func TestC07(t *testing.T) {
 		}
 		// 3c. shared byte-level generators: token runs at every alignment, corruption at chunk
 		// boundaries of long documents, pretty-printed depth shapes
-		e.feed(feedOpts{counts: 1, alignment: true, boundaries: true, boundaryQ: 1, indentQ: 8, indentT: 200, numShapes: 2, strRuns: true, amplify: true, tokenSweepQ: 40}, func(kind string, in []byte) error {
+		e.feed(feedOpts{counts: 1, streams: true, alignment: true, boundaries: true, boundaryQ: 1, indentQ: 8, indentT: 200, numShapes: 2, strRuns: true, amplify: true, tokenSweepQ: 40}, func(kind string, in []byte) error {
 			return eval(kind, in, 0x9E3779B97F4A7C15)
 		})
 		// 4. deep members at the property's bound: a 10,000-deep document
